@@ -34,11 +34,15 @@ type Case struct {
 	Interval int    `json:"interval"` // publishing interval, ms
 	Mode     string `json:"mode"`     // cb | chan
 	Pause    int    `json:"pause"`    // max pause between writes, microseconds
+	TS       int    `json:"ts"`       // 1: client writes carry explicit source timestamps, random within +-1 h (not monotonic)
+	Map      int    `json:"map"`      // 1: the keys m1.. of the map namespace are monitored and written as well (application mode: MapNamespace.SetValue)
+	Late     int    `json:"late"`     // 1: after the last write a second subscription of the same NodeMonitor adds every node (no write follows)
 	App      int    `json:"app"`      // 1: values change inside the server application (callback-backed nodes, announced with Server.ChangeNotification from concurrent goroutines) instead of client writes
 	Salt     int    `json:"salt"`
 }
 
 type Event struct {
+	S  int    `json:"s,omitempty"` // subscription (1, 2) an add / remove / notify event belongs to
 	T  int64  `json:"t"`
 	Ev string `json:"ev"`
 	N  string `json:"n,omitempty"`
@@ -65,30 +69,48 @@ func main() {
 		child()
 		return
 	}
-	for _, c := range vfgo.Cases[Case]() {
-		var last string
-		done := false
-		for attempt := 0; attempt < 3 && !done; attempt++ {
-			in, _ := json.Marshal(c)
-			out := vfgo.RunChild("run", in, 120*time.Second, "GOTRACEBACK=single")
-			ls := g2kit.Lines[line](out.Stdout)
-			if len(ls) == 1 && ls[0].Err == "" {
-				l := ls[0]
-				class := fmt.Sprintf("nodes%d/%s/int%d/churn%v/app%d/notifs%s", c.Nodes, c.Mode, c.Interval, c.Churn > 0, c.App, bucket(l.Stats["notify"]))
-				vfgo.Emit(vfgo.Result{Case: c, Status: "ok", Class: class, Nontrivial: l.Stats["notify"] > c.Nodes,
-					Obs: map[string]any{"events": l.Events, "stats": l.Stats}})
-				done = true
-				break
+	cases := vfgo.Cases[Case]()
+	work := make(chan Case, len(cases))
+	for _, c := range cases {
+		work <- c
+	}
+	close(work)
+	var wg sync.WaitGroup
+	for l := 0; l < 3; l++ { // three runs side by side, each with its own server child
+		wg.Add(1)
+		go func() {
+			defer wg.Done()
+			for c := range work {
+				runCase(c)
 			}
-			if len(ls) == 1 {
-				last = ls[0].Err
-			} else {
-				last = fmt.Sprintf("child ended without a trace (exit=%d timeout=%v panic=%v): %s", out.Exit, out.TimedOut, out.Panic, vfgo.PanicHead(out.Stderr))
-			}
+		}()
+	}
+	wg.Wait()
+}
+
+func runCase(c Case) {
+	var last string
+	done := false
+	for attempt := 0; attempt < 3 && !done; attempt++ {
+		in, _ := json.Marshal(c)
+		out := vfgo.RunChild("run", in, 180*time.Second, "GOTRACEBACK=single")
+		ls := g2kit.Lines[line](out.Stdout)
+		if len(ls) == 1 && ls[0].Err == "" {
+			l := ls[0]
+			class := fmt.Sprintf("nodes%d/%s/int%d/churn%v/app%d/map%d/ts%d/late%d/notifs%s", c.Nodes, c.Mode, c.Interval, c.Churn > 0, c.App, c.Map, c.TS, c.Late, bucket(l.Stats["notify"]))
+			vfgo.Emit(vfgo.Result{Case: c, Status: "ok", Class: class, Nontrivial: l.Stats["notify"] > c.Nodes,
+				Obs: map[string]any{"events": l.Events, "stats": l.Stats}})
+			done = true
+			break
 		}
-		if !done {
-			vfgo.Inconclusive(c, last)
+		if len(ls) == 1 {
+			last = ls[0].Err
+		} else {
+			last = fmt.Sprintf("child ended without a trace (exit=%d timeout=%v panic=%v): %s", out.Exit, out.TimedOut, out.Panic, vfgo.PanicHead(out.Stderr))
 		}
+	}
+	if !done {
+		vfgo.Inconclusive(c, last)
 	}
 }
 
@@ -110,10 +132,12 @@ type recorder struct {
 	evs []Event
 }
 
-func (r *recorder) log(ev, n, vn string, k int64) {
+func (r *recorder) log(ev, n, vn string, k int64) { r.logS(0, ev, n, vn, k) }
+
+func (r *recorder) logS(sub int, ev, n, vn string, k int64) {
 	t := r.seq.Add(1)
 	r.mu.Lock()
-	r.evs = append(r.evs, Event{T: t, Ev: ev, N: n, VN: vn, K: k})
+	r.evs = append(r.evs, Event{S: sub, T: t, Ev: ev, N: n, VN: vn, K: k})
 	r.mu.Unlock()
 }
 
@@ -128,6 +152,12 @@ func nodeOfID(id *ua.NodeID) string {
 	return id.StringID()
 }
 
+type tgt struct {
+	id    *ua.NodeID
+	name  string
+	isKey bool
+}
+
 func child() {
 	out := g2kit.NewOut()
 	in, _ := io.ReadAll(os.Stdin)
@@ -138,7 +168,11 @@ func child() {
 	}
 	// application mode: node i is backed by a callback that reads cur[i]; the callback doubles as
 	// a scheduler gate (every third call pauses right after it sampled the value)
-	cur := make([]atomic.Int64, c.Nodes)
+	nT := c.Nodes
+	if c.Map > 0 {
+		nT = 2 * c.Nodes
+	}
+	cur := make([]atomic.Int64, nT)
 	var gate atomic.Int64
 	var valueOf func(i int) any
 	if c.App > 0 {
@@ -158,17 +192,46 @@ func child() {
 		fail(out, c.ID, "start: %v", err)
 		return
 	}
+	// targets: the variable nodes, then (Map) the keys of the map namespace; target i carries tag i+1
+	var tg []tgt
+	for i, n := range srv.Nodes {
+		tg = append(tg, tgt{id: n, name: g2kit.NodeName(i)})
+	}
+	if c.Map > 0 {
+		for i, n := range srv.Keys {
+			tg = append(tg, tgt{id: n, name: g2kit.KeyName(i), isKey: true})
+		}
+	}
+	nameOfTag := func(tag int64) string {
+		if tag >= 1 && int(tag) <= len(tg) {
+			return tg[tag-1].name
+		}
+		return fmt.Sprintf("?%d", tag)
+	}
 	wc, err := g2kit.Connect(srv.URL, opTimeout)
 	if err != nil {
 		fail(out, c.ID, "connect writer: %v", err)
 		return
 	}
-	// tagged initial values: node i holds i*1e6 + 0
-	for i, n := range srv.Nodes {
-		if c.App > 0 {
-			break
+	tsRng := vfgo.Rand(int64(c.Salt)*100 + 77)
+	var tsMu sync.Mutex
+	stamp := func() time.Time {
+		if c.TS == 0 {
+			return time.Time{}
 		}
-		if err := g2kit.WriteInt(wc, n, int64(i+1)*tagBase, opTimeout); err != nil {
+		tsMu.Lock()
+		defer tsMu.Unlock()
+		return time.Date(2026, 1, 1, 12, 0, 0, 0, time.UTC).Add(time.Duration(tsRng.Intn(7200000)-3600000) * time.Millisecond)
+	}
+	// tagged initial values: target i holds (i+1)*1e6 + 0
+	for i, t := range tg {
+		if c.App > 0 {
+			if t.isKey {
+				srv.Map.SetValue(t.name, int64(i+1)*tagBase)
+			}
+			continue
+		}
+		if err := g2kit.WriteKindTS(wc, t.id, int64(i+1)*tagBase, 0, stamp(), opTimeout); err != nil {
 			fail(out, c.ID, "initial write: %v", err)
 			return
 		}
@@ -181,7 +244,7 @@ func child() {
 	rec := &recorder{}
 	var nNotify, nErr atomic.Int64
 	var lastNotify atomic.Int64
-	onMsg := func(m *monitor.DataChangeMessage) {
+	onMsg := func(si int, m *monitor.DataChangeMessage) {
 		lastNotify.Store(time.Now().UnixNano())
 		if m.Error != nil {
 			nErr.Add(1)
@@ -191,10 +254,10 @@ func child() {
 		vn, k := "?", int64(-1)
 		if m.DataValue != nil && m.DataValue.Value != nil && m.DataValue.Status == ua.StatusOK {
 			if v, ok := m.DataValue.Value.Value().(int64); ok {
-				vn, k = fmt.Sprintf("n%d", v/tagBase), v%tagBase
+				vn, k = nameOfTag(v/tagBase), v%tagBase
 			}
 		}
-		rec.log("notify", nodeOfID(m.NodeID), vn, k)
+		rec.logS(si, "notify", nodeOfID(m.NodeID), vn, k)
 	}
 	nm, _ := monitor.NewNodeMonitor(mc)
 	var asyncErrs atomic.Int64
@@ -202,25 +265,27 @@ func child() {
 	ctx, cancel := context.WithCancel(context.Background())
 	defer cancel()
 	params := &opcua.SubscriptionParameters{Interval: time.Duration(c.Interval) * time.Millisecond}
-	var sub *monitor.Subscription
-	if c.Mode == "chan" {
-		ch := make(chan *monitor.DataChangeMessage, 1<<17)
-		sub, err = nm.ChanSubscribe(ctx, params, ch)
-		go func() {
-			for m := range ch {
-				onMsg(m)
-			}
-		}()
-	} else {
-		sub, err = nm.Subscribe(ctx, params, func(_ *monitor.Subscription, m *monitor.DataChangeMessage) { onMsg(m) })
+	subscribe := func(si int) (*monitor.Subscription, error) {
+		if c.Mode == "chan" {
+			ch := make(chan *monitor.DataChangeMessage, 1<<17)
+			sub, err := nm.ChanSubscribe(ctx, params, ch)
+			go func() {
+				for m := range ch {
+					onMsg(si, m)
+				}
+			}()
+			return sub, err
+		}
+		return nm.Subscribe(ctx, params, func(_ *monitor.Subscription, m *monitor.DataChangeMessage) { onMsg(si, m) })
 	}
+	sub, err := subscribe(1)
 	if err != nil {
 		fail(out, c.ID, "subscribe: %v", err)
 		return
 	}
-	for _, n := range srv.Nodes {
-		rec.log("add", n.StringID(), "", 0)
-		if err := sub.AddNodeIDs(ctx, n); err != nil {
+	for _, t := range tg {
+		rec.logS(1, "add", t.name, "", 0)
+		if err := sub.AddNodeIDs(ctx, t.id); err != nil {
 			fail(out, c.ID, "add node: %v", err)
 			return
 		}
@@ -229,9 +294,9 @@ func child() {
 	var wg, announcers sync.WaitGroup
 	var churnDone atomic.Bool
 	var werr atomic.Value
-	for i, n := range srv.Nodes {
+	for i, t := range tg {
 		wg.Add(1)
-		go func(i int, n *ua.NodeID) {
+		go func(i int, t tgt) {
 			defer wg.Done()
 			rng := vfgo.Rand(int64(c.Salt)*100 + int64(i))
 			// at least c.Writes writes; with churn, keep writing until the churn rounds are over
@@ -239,25 +304,30 @@ func child() {
 				if c.Pause > 0 {
 					time.Sleep(time.Duration(rng.Intn(c.Pause)) * time.Microsecond)
 				}
-				rec.log("wcall", n.StringID(), "", k)
-				if c.App > 0 {
+				rec.log("wcall", t.name, "", k)
+				switch {
+				case c.App > 0 && t.isKey:
+					// the application changes a key of its map namespace (announces the change itself)
+					srv.Map.SetValue(t.name, int64(i+1)*tagBase+k)
+					rec.log("wret", t.name, "", k)
+				case c.App > 0:
 					// the application changes the value and announces it from a goroutine of its own
 					cur[i].Store(int64(i+1)*tagBase + k)
-					rec.log("wret", n.StringID(), "", k)
+					rec.log("wret", t.name, "", k)
 					announcers.Add(1)
 					go func() {
 						defer announcers.Done()
-						srv.S.ChangeNotification(n)
+						srv.S.ChangeNotification(t.id)
 					}()
-					continue
+				default:
+					if err := g2kit.WriteKindTS(wc, t.id, int64(i+1)*tagBase+k, 0, stamp(), opTimeout); err != nil {
+						werr.Store(fmt.Sprintf("write %s #%d: %v", t.name, k, err))
+						return
+					}
+					rec.log("wret", t.name, "", k)
 				}
-				if err := g2kit.WriteInt(wc, n, int64(i+1)*tagBase+k, opTimeout); err != nil {
-					werr.Store(fmt.Sprintf("write %s #%d: %v", n.StringID(), k, err))
-					return
-				}
-				rec.log("wret", n.StringID(), "", k)
 			}
-		}(i, n)
+		}(i, t)
 	}
 	var cerr atomic.Value
 	if c.Churn > 0 {
@@ -267,17 +337,17 @@ func child() {
 			defer churnDone.Store(true)
 			rng := vfgo.Rand(int64(c.Salt)*100 + 99)
 			for r := 0; r < c.Churn; r++ {
-				n := srv.Nodes[rng.Intn(len(srv.Nodes))]
+				t := tg[rng.Intn(len(tg))]
 				time.Sleep(time.Duration(rng.Intn(2*c.Interval+1)) * time.Millisecond)
-				rec.log("remove", n.StringID(), "", 0)
-				if err := sub.RemoveNodeIDs(ctx, n); err != nil {
-					cerr.Store(fmt.Sprintf("remove %s: %v", n.StringID(), err))
+				rec.logS(1, "remove", t.name, "", 0)
+				if err := sub.RemoveNodeIDs(ctx, t.id); err != nil {
+					cerr.Store(fmt.Sprintf("remove %s: %v", t.name, err))
 					return
 				}
 				time.Sleep(time.Duration(rng.Intn(c.Interval+1)) * time.Millisecond)
-				rec.log("add", n.StringID(), "", 0)
-				if err := sub.AddNodeIDs(ctx, n); err != nil {
-					cerr.Store(fmt.Sprintf("re-add %s: %v", n.StringID(), err))
+				rec.logS(1, "add", t.name, "", 0)
+				if err := sub.AddNodeIDs(ctx, t.id); err != nil {
+					cerr.Store(fmt.Sprintf("re-add %s: %v", t.name, err))
 					return
 				}
 			}
@@ -293,6 +363,27 @@ func child() {
 		fail(out, c.ID, "%v", e)
 		return
 	}
+	subs := 1
+	if c.Late > 0 {
+		// a second subscription of the same monitor on nodes that are monitored already; nothing is written any more
+		sub2, err := subscribe(2)
+		if err != nil {
+			fail(out, c.ID, "second subscription: %v", err)
+			return
+		}
+		subs = 2
+		for _, t := range tg {
+			rec.logS(2, "add", t.name, "", 0)
+		}
+		ids := make([]*ua.NodeID, len(tg))
+		for i, t := range tg {
+			ids[i] = t.id
+		}
+		if err := sub2.AddNodeIDs(ctx, ids...); err != nil { // all nodes in one request
+			fail(out, c.ID, "second subscription add: %v", err)
+			return
+		}
+	}
 	rec.log("quiesce", "", "", 0)
 	// drain: no notification for quiet = max(10 publishing intervals, 500 ms); give up after 15 s
 	quiet := time.Duration(10*c.Interval) * time.Millisecond
@@ -300,7 +391,7 @@ func child() {
 		quiet = 500 * time.Millisecond
 	}
 	deadline := time.Now().Add(15 * time.Second)
-	lastNotify.CompareAndSwap(0, time.Now().UnixNano())
+	lastNotify.Store(time.Now().UnixNano())
 	for time.Now().Before(deadline) {
 		if time.Since(time.Unix(0, lastNotify.Load())) >= quiet {
 			break
@@ -312,20 +403,20 @@ func child() {
 		fail(out, c.ID, "connect reader: %v", err)
 		return
 	}
-	for _, n := range srv.Nodes {
-		v, err := g2kit.ReadInt(rc, n, opTimeout)
+	for _, t := range tg {
+		v, err := g2kit.ReadInt(rc, t.id, opTimeout)
 		if err != nil {
 			fail(out, c.ID, "final read: %v", err)
 			return
 		}
-		rec.log("final", n.StringID(), fmt.Sprintf("n%d", v/tagBase), v%tagBase)
+		rec.log("final", t.name, nameOfTag(v/tagBase), v%tagBase)
 	}
 	rec.mu.Lock()
 	evs := append([]Event(nil), rec.evs...)
 	rec.mu.Unlock()
 	sort.Slice(evs, func(i, j int) bool { return evs[i].T < evs[j].T })
 	out.Put(line{ID: c.ID, Events: evs, Stats: map[string]int{"notify": int(nNotify.Load()), "notify_errors": int(nErr.Load()),
-		"async_errors": int(asyncErrs.Load()), "delivered": int(sub.Delivered()), "dropped": int(sub.Dropped())}})
+		"async_errors": int(asyncErrs.Load()), "delivered": int(sub.Delivered()), "dropped": int(sub.Dropped()), "subscriptions": subs}})
 	os.Stdout.Sync()
 	os.Exit(0) // do not bother tearing down
 }
